@@ -1,8 +1,9 @@
 (* Proofs/BackendProofs.v -- both backends refine the abstract store (Model/Backend.v). *)
 From Coq Require Import List Bool Ascii String Arith ZArith Lia.
-Require Import DS.Model.Str DS.Gen.GenS3 DS.Model.Backend DS.Proofs.StrProofs.
+Require Import DS.Model.Str DS.Gen.GenS3 DS.Gen.GenRange DS.Model.Range DS.Model.Backend DS.Model.BackendTrace DS.Proofs.StrProofs DS.Proofs.RangeProofs.
 Import ListNotations.
 Local Arguments Ascii.eqb : simpl never.
+Local Open Scope nat_scope.
 
 (* ================================================================ generic list facts *)
 Lemma filter_all_false : forall {A} (p : A -> bool) l, (forall x, In x l -> p x = false) -> filter p l = [].
@@ -345,12 +346,39 @@ Section S3.
   Lemma code_mtime : str_eqb (lit "404") gen_code_mtime_notfound = true.
   Proof. reflexivity. Qed.
 
+  Lemma code_open : str_eqb (lit "NoSuchKey") gen_code_open_notfound = true.
+  Proof. reflexivity. Qed.
+  Lemma code_readtag : str_eqb (lit "NoSuchKey") gen_code_readtag_notfound = true.
+  Proof. reflexivity. Qed.
+
+  (* open_seekable on a key that holds v: one HEAD answers v's size, the reader gets that size and the key's own
+     S3 key, and every ranged GET is answered from v -- the reader over v itself.  (gen_open_size_path /
+     gen_open_key are open_seekable's wiring as the source has it now.) *)
+  Lemma s3_open_some : forall st k prog v, wf_store st -> Forall wf_seg k -> lookup key_eqb k st = Some v ->
+    s3_open pfx (F ++ map km st) (join k) prog =
+    (let '(os, final, rs) := run_rf v 0 prog in (OOpened os final, rs)).
+  Proof.
+    intros st k prog v Hs Hk El. unfold s3_open, s3_get_size, gen_open_size_path, gen_open_key.
+    rewrite (get_key_join pfx k Hk). fold (s3k k). unfold s3_head_object. rewrite (s3_lookup st k Hs Hk), El.
+    change (size_of v) with (zlen v). unfold run_rf.
+    rewrite (run_rf_on_ext (zlen v) (s3_get_range (F ++ map km st) (s3k k)) (server_range v)); [reflexivity|].
+    intros a b. unfold s3_get_range, s3_get_object. rewrite (s3_lookup st k Hs Hk), El. reflexivity.
+  Qed.
+
+  Lemma s3_open_none : forall st k prog, wf_store st -> Forall wf_seg k -> lookup key_eqb k st = None ->
+    s3_open pfx (F ++ map km st) (join k) prog = (OErr NotFound, []).
+  Proof.
+    intros st k prog Hs Hk El. unfold s3_open, s3_get_size, gen_open_size_path.
+    rewrite (get_key_join pfx k Hk). fold (s3k k). unfold s3_head_object. rewrite (s3_lookup st k Hs Hk), El.
+    rewrite code_size. reflexivity.
+  Qed.
+
   Lemma s3_sim_step : forall st o, wf_keys st -> wf_op o ->
     s3_step pfx (F ++ map km st) (map_op join o) = (F ++ map km (fst (spec_step st o)), snd (spec_step st o))
     /\ wf_keys (fst (spec_step st o)).
   Proof.
     intros st o Hst Ho. pose proof (wf_keys_store st Hst) as Hs.
-    destruct o as [k v|k|k|d|k|k|k]; cbn [map_op s3_step spec_step fst snd wf_op] in *;
+    destruct o as [k v|k|k|d|k|k|k|k prog|k|k v|k]; cbn [map_op s3_step spec_step fst snd wf_op] in *;
       try (destruct Ho as [Hne Hk]; rewrite (get_key_join pfx k Hk); fold (s3k k)).
     - (* Write *)
       unfold s3_put_object. rewrite (s3_upsert st k v Hs Hk). split; [reflexivity|].
@@ -370,11 +398,32 @@ Section S3.
       unfold wf_keys. rewrite Forall_forall. intros x Hx. apply remove_keys in Hx.
       unfold wf_keys in Hst. rewrite Forall_forall in Hst. apply Hst. exact Hx.
     - (* Size *)
+      destruct Ho as [Hne Hk]. unfold s3_get_size. rewrite (get_key_join pfx k Hk). fold (s3k k).
       unfold s3_head_object. rewrite (s3_lookup st k Hs Hk). split; [|exact Hst].
       destruct (lookup key_eqb k st); [reflexivity|]. rewrite code_size. reflexivity.
     - (* Mtime *)
       unfold s3_head_object. rewrite (s3_lookup st k Hs Hk). split; [|exact Hst].
       destruct (lookup key_eqb k st); [reflexivity|]. rewrite code_mtime. reflexivity.
+    - (* Open *)
+      destruct Ho as [[Hne Hk] Hprog]. split; [|exact Hst]. f_equal.
+      destruct (lookup key_eqb k st) as [v|] eqn:El.
+      + rewrite (s3_open_some st k prog v Hs Hk El). unfold file_obs.
+        pose proof (range_equiv v prog Hprog) as Hr. destruct (run_rf v 0 prog) as [[os final] rs].
+        destruct Hr as [Hf _]. rewrite Hf. reflexivity.
+      + rewrite (s3_open_none st k prog Hs Hk El). reflexivity.
+    - (* Stream *)
+      unfold s3_get_object. rewrite (s3_lookup st k Hs Hk). split; [|exact Hst].
+      destruct (lookup key_eqb k st); [reflexivity|]. rewrite code_open. reflexivity.
+    - (* WriteCas: the tag just read matches, so the conditional PUT lands like a plain one *)
+      cbv zeta. unfold s3_put_if, s3_get_object.
+      replace (tag_matches _ _) with true
+        by (destruct (lookup str_eqb (s3k k) (F ++ map km st)); cbn [tag_matches]; [rewrite str_eqb_refl|]; reflexivity).
+      rewrite (s3_upsert st k v Hs Hk). split; [reflexivity|].
+      unfold wf_keys. rewrite Forall_forall. intros x Hx. apply upsert_keys in Hx. destruct Hx as [->|Hx]; [split; assumption|].
+      unfold wf_keys in Hst. rewrite Forall_forall in Hst. apply Hst. exact Hx.
+    - (* ReadTag *)
+      unfold s3_get_object. rewrite (s3_lookup st k Hs Hk). split; [|exact Hst].
+      destruct (lookup key_eqb k st); [reflexivity|]. rewrite code_readtag. reflexivity.
   Qed.
 
   Lemma s3_sim_run : forall ops st, wf_keys st -> Forall wf_op ops ->
@@ -388,7 +437,50 @@ Section S3.
     destruct (run (s3_step pfx) (F ++ map km st') (map (map_op join) ops)) as [b2 os2].
     destruct (run spec_step st' ops) as [st2 os3]. cbn [snd] in *. congruence.
   Qed.
+  (* ---- "requesting only in-range bytes": every ranged GET of every operation of every history names an object
+     that exists in the bucket at that moment, within its size *)
+  Lemma Forall_repeat : forall {X} (P : X -> Prop) x n, P x -> Forall P (repeat x n).
+  Proof. intros X P x n H. apply Forall_forall. intros y Hy. apply repeat_spec in Hy. subst. exact H. Qed.
+
+  Lemma s3_trace_ranges : forall page st o, wf_keys st -> wf_op o ->
+    Forall (ranged_ok (F ++ map km st)) (s3_trace page pfx (F ++ map km st) (map_op join o)).
+  Proof.
+    intros page st o Hst Ho. pose proof (wf_keys_store st Hst) as Hs.
+    destruct o as [k v|k|k|d|k|k|k|k prog|k|k v|k]; cbn [map_op s3_trace];
+      try (apply Forall_repeat; exact I); try (repeat constructor; exact I).
+    - (* Exists *)
+      constructor; [exact I|]. destruct (has str_eqb _ _); [constructor|]. destruct (ends_with _ _); repeat constructor.
+    - (* Open *)
+      destruct Ho as [[Hne Hk] Hprog]. apply Forall_app. split; [apply Forall_repeat; exact I|].
+      destruct (lookup key_eqb k st) as [v|] eqn:El.
+      + rewrite (s3_open_some st k prog v Hs Hk El).
+        pose proof (range_equiv v prog Hprog) as Hr. destruct (run_rf v 0 prog) as [[os final] rs].
+        destruct Hr as [_ [Hr _]]. cbn [snd]. apply Forall_forall. intros r Hin. apply in_map_iff in Hin.
+        destruct Hin as [[a b] [<- Hin]]. cbn [ranged_ok fst snd]. exists v. split.
+        * unfold gen_open_key. rewrite (get_key_join pfx k Hk). fold (s3k k). rewrite (s3_lookup st k Hs Hk). exact El.
+        * rewrite Forall_forall in Hr. exact (Hr (a, b) Hin).
+      + rewrite (s3_open_none st k prog Hs Hk El). constructor.
+    - (* WriteCas *)
+      apply Forall_app. split; [apply Forall_repeat; exact I|repeat constructor].
+  Qed.
+
+  Lemma s3_ranges_run : forall page ops st, wf_keys st -> Forall wf_op ops ->
+    ranges_in_objects page pfx (F ++ map km st) (map (map_op join) ops).
+  Proof.
+    intros page. induction ops as [|o ops IH]; intros st Hst Hops; [exact I|].
+    inversion Hops as [|? ? Ho Hops']; subst. cbn [map ranges_in_objects]. split; [apply s3_trace_ranges; assumption|].
+    destruct (s3_sim_step st o Hst Ho) as [E Hst']. rewrite E. cbn [fst]. apply IH; assumption.
+  Qed.
 End S3.
+
+Theorem ranges_in_objects_all : forall (page : nat) (raw_prefix : str) (F : bucket) (ops : list (op key)),
+  foreign_ok (gen_init_prefix raw_prefix) F -> Forall wf_op ops ->
+  ranges_in_objects page (gen_init_prefix raw_prefix) F (map (map_op join) ops).
+Proof.
+  intros page raw F ops HF Hops.
+  pose proof (s3_ranges_run (gen_init_prefix raw) F HF page ops [] (Forall_nil _) Hops) as H.
+  simpl in H. rewrite app_nil_r in H. exact H.
+Qed.
 
 Theorem refine_s3 : forall (raw_prefix : str) (F : bucket) (ops : list (op key)),
   foreign_ok (gen_init_prefix raw_prefix) F -> Forall wf_op ops ->
@@ -465,10 +557,11 @@ Section Local.
                   /\ linv KS {| lfiles := fst (spec_step (lfiles s) o); ldirs := dirs' |}.
   Proof.
     intros s o Hi Ho Hin. pose proof Hi as [Hf [Hd Hp]].
-    destruct o as [k v|k|k|d|k|k|k]; cbn [local_step spec_step fst snd wf_op op_key] in *;
-      try (destruct Ho as [Hne Hk]; pose proof (Hin k (or_introl eq_refl)) as HkKS).
+    destruct o as [k v|k|k|d|k|k|k|k prog|k|k v|k]; cbn [local_step spec_step fst snd wf_op op_key] in *;
+      try (destruct Ho as [[Hne Hk] Hprog]);
+      try (destruct Ho as [Hne Hk]); try (pose proof (Hin k (or_introl eq_refl)) as HkKS).
     - (* Write *)
-      rewrite (not_below_file s k Hi HkKS).
+      unfold local_write. rewrite (not_below_file s k Hi HkKS).
       set (dirs' := add_dirs (proper_prefixes k) (ldirs s)).
       assert (dirs_ok KS dirs') as Hd'.
       { intros p Hp'. apply add_dirs_In in Hp'. destruct Hp' as [Hp'|Hp']; [|apply Hd; exact Hp'].
@@ -504,11 +597,33 @@ Section Local.
     - (* Mtime *)
       exists (ldirs s). split; [|destruct s; exact Hi]. destruct s as [fs ds]. cbn [lfiles ldirs] in *.
       destruct (lookup key_eqb k fs); [reflexivity|]. rewrite (not_is_dir _ k Hi HkKS Hne), (missing_notfound _ k Hi HkKS Hne). reflexivity.
+    - (* Open *)
+      exists (ldirs s). split; [|destruct s; exact Hi]. destruct s as [fs ds]. cbn [lfiles ldirs] in *.
+      destruct (lookup key_eqb k fs); [reflexivity|]. rewrite (missing_notfound _ k Hi HkKS Hne). reflexivity.
+    - (* Stream *)
+      exists (ldirs s). split; [|destruct s; exact Hi]. destruct s as [fs ds]. cbn [lfiles ldirs] in *.
+      destruct (lookup key_eqb k fs); [reflexivity|]. rewrite (missing_notfound _ k Hi HkKS Hne). reflexivity.
+    - (* WriteCas: a plain write on a backend without CAS *)
+      unfold local_write. rewrite (not_below_file s k Hi HkKS).
+      set (dirs' := add_dirs (proper_prefixes k) (ldirs s)).
+      assert (dirs_ok KS dirs') as Hd'.
+      { intros p Hp'. apply add_dirs_In in Hp'. destruct Hp' as [Hp'|Hp']; [|apply Hd; exact Hp'].
+        exists k. split; [exact HkKS|apply pp_under; exact Hp']. }
+      assert (is_dir {| lfiles := lfiles s; ldirs := dirs' |} k = false) as E.
+      { unfold is_dir. cbn [ldirs]. destruct k; [contradiction|]. apply no_dir; assumption. }
+      rewrite E. exists dirs'. split; [reflexivity|]. split; [|split]; cbn [lfiles ldirs].
+      + intros x Hx. apply upsert_keys in Hx. destruct Hx as [->|Hx]; [exact HkKS|apply Hf; exact Hx].
+      + exact Hd'.
+      + intros x p Hx Hpp. apply add_dirs_In. apply upsert_keys in Hx. destruct Hx as [->|Hx]; [left; exact Hpp|right; eapply Hp; eassumption].
+    - (* ReadTag *)
+      exists (ldirs s). split; [|destruct s; exact Hi]. destruct s as [fs ds]. cbn [lfiles ldirs] in *.
+      destruct (lookup key_eqb k fs); [reflexivity|]. rewrite (missing_notfound _ k Hi HkKS Hne). reflexivity.
   Qed.
 
   Lemma map_op_components_join : forall o, wf_op o -> map_op components (map_op join o) = o.
   Proof.
-    intros o Ho. destruct o; cbn [map_op wf_op] in *; try destruct Ho as [_ Ho]; rewrite (components_join _ Ho); reflexivity.
+    intros o Ho. destruct o; cbn [map_op wf_op] in *; try (destruct Ho as [[_ Ho] _]); try destruct Ho as [_ Ho];
+      rewrite (components_join _ Ho); reflexivity.
   Qed.
 
   Lemma local_sim_run : forall ops s, linv KS s -> Forall wf_op ops -> (forall o k, In o ops -> In k (op_key o) -> In k KS) ->
@@ -535,6 +650,33 @@ Proof.
   - intros o k Ho Hk. unfold op_keys. apply in_flat_map. exists o. split; assumption.
 Qed.
 
+(* ================================================================ open_seekable after any history *)
+Lemma run_app : forall {S E} (step : S -> E -> S * obs) es1 es2 s,
+  run step s (es1 ++ es2) =
+  (fst (run step (fst (run step s es1)) es2), snd (run step s es1) ++ snd (run step (fst (run step s es1)) es2)).
+Proof.
+  intros S E step. induction es1 as [|e es1 IH]; intros es2 s; cbn [app run].
+  - cbn [fst snd app]. destruct (run step s es2); reflexivity.
+  - destruct (step s e) as [s' o]. rewrite IH. destruct (run step s' es1) as [s1 os1]. cbn [fst snd].
+    destruct (run step s1 es2) as [s2 os2]. reflexivity.
+Qed.
+
+(* the store the contract holds after a history *)
+Definition spec_store (ops : list (op key)) : store := fst (run spec_step [] ops).
+
+(* open_seekable(k) on the S3 backend after ANY history on it (writes, overwrites, deletes, earlier opens, ...):
+   a reader indistinguishable from a plain file over the content k holds NOW, and FileNotFoundError exactly when
+   k holds nothing now -- nothing the backend saw earlier (a previous size, a previous existence) shows through *)
+Theorem open_after_history : forall (raw_prefix : str) (F : bucket) (ops : list (op key)) (k : key) (prog : list rop),
+  foreign_ok (gen_init_prefix raw_prefix) F -> Forall wf_op ops -> wf_key k -> Forall wf_rop prog ->
+  run_s3 raw_prefix F (ops ++ [Open k prog]) =
+  run_spec ops ++ [match lookup key_eqb k (spec_store ops) with Some v => file_obs v prog | None => OErr NotFound end].
+Proof.
+  intros raw F ops k prog HF Hops Hk Hprog. rewrite refine_s3; [|exact HF|].
+  - unfold run_spec, spec_store. rewrite run_app. reflexivity.
+  - apply Forall_app. split; [exact Hops|]. constructor; [split; assumption|constructor].
+Qed.
+
 Theorem backends_agree : forall (raw_prefix : str) (F : bucket) (ops : list (op key)),
   foreign_ok (gen_init_prefix raw_prefix) F -> Forall wf_op ops -> prefix_free (op_keys ops) ->
   run_s3 raw_prefix F ops = run_local ops.
@@ -550,7 +692,10 @@ Qed.
 Lemma wf_opb_sound : forall o, wf_opb o = true -> wf_op o.
 Proof.
   intros o H. destruct o; cbn [wf_opb wf_op] in *; try (apply wf_keyb_sound; exact H).
-  rewrite forallb_forall in H. apply Forall_forall. exact H.
+  - rewrite forallb_forall in H. apply Forall_forall. exact H.
+  - apply andb_true_iff in H. destruct H as [Hk Hp]. split; [apply wf_keyb_sound; exact Hk|].
+    rewrite forallb_forall in Hp. apply Forall_forall. intros x Hx. specialize (Hp x Hx).
+    destruct x; cbn [wf_ropb wf_rop] in *; try exact I. apply Z.leb_le. exact Hp.
 Qed.
 
 Lemma wf_opsb_sound : forall ops, forallb wf_opb ops = true -> Forall wf_op ops.
@@ -572,7 +717,7 @@ Qed.
 Definition abs_join (n : nat) (k : key) : str := repeat slash n ++ join k.
 
 Definition op_segs (o : op key) : key :=
-  match o with Write k _ | Read k | Exists k | ListDir k | Delete k | Size k | Mtime k => k end.
+  match o with Write k _ | Read k | Exists k | ListDir k | Delete k | Size k | Mtime k | Open k _ | Stream k | WriteCas k _ | ReadTag k => k end.
 
 Lemma lstrip_abs : forall n k, Forall wf_seg k -> lstrip_slash (abs_join n k) = join k.
 Proof.
@@ -595,6 +740,7 @@ Theorem leading_slash_same : forall pfx (b : bucket) (s : lstate) (n : nat) (o :
   /\ local_step_str s (map_op (abs_join n) o) = local_step_str s (map_op join o).
 Proof.
   intros pfx b s n o Ho. split.
-  - destruct o; cbn [map_op s3_step op_segs] in *; unfold gen_list_prefix; rewrite ?(get_key_abs pfx n _ Ho); reflexivity.
+  - destruct o; cbn [map_op s3_step op_segs] in *; unfold gen_list_prefix, s3_open, s3_get_size, gen_open_key, gen_open_size_path;
+      rewrite ?(get_key_abs pfx n _ Ho); reflexivity.
   - unfold local_step_str. destruct o; cbn [map_op op_segs] in *; rewrite (components_abs n _ Ho), (components_join _ Ho); reflexivity.
 Qed.
